@@ -315,3 +315,38 @@ def _fast_when_concrete(fn):
 lex_ok = _fast_when_concrete(lex_ok)
 brace_depth_ok = _fast_when_concrete(brace_depth_ok)
 final_depth = _fast_when_concrete(final_depth)
+
+
+class ModuleState:
+    """snapshot of the module-level mutable containers (dict / list / set) of a module; reset() restores their contents.
+    Used at the start of history-sensitive harness bodies so that state (e.g. a memo added by a change) cannot leak from
+    one explored path into the next - a counterexample must depend on the arguments only, or it would not replay."""
+
+    def __init__(self, mod):
+        self.mod = mod
+        self.snap = {}
+        for name, obj in vars(mod).items():
+            if isinstance(obj, dict) and not name.startswith("__"):
+                self.snap[name] = ("dict", dict(obj))
+            elif isinstance(obj, list):
+                self.snap[name] = ("list", list(obj))
+            elif isinstance(obj, set):
+                self.snap[name] = ("set", set(obj))
+
+    def reset(self):
+        def go():
+            for name, (kind, content) in self.snap.items():
+                obj = getattr(self.mod, name, None)
+                if kind == "dict" and isinstance(obj, dict):
+                    obj.clear()
+                    obj.update(content)
+                elif kind == "list" and isinstance(obj, list):
+                    obj[:] = content
+                elif kind == "set" and isinstance(obj, set):
+                    obj.clear()
+                    obj.update(content)
+        if _NoTracing is not None:
+            with _NoTracing():
+                go()
+        else:
+            go()
